@@ -80,6 +80,9 @@ func genFlat(r *core.Rand, tier string) *flatCase {
 	var pool [][]float32
 	var ids []uint32 // added so far (successful or not — never reused)
 	next := uint32(1)
+	denseIDs := r.Chance(0.5)    // consecutive ids (contiguous id ranges occur)
+	liveSet := map[uint32]bool{} // ids the generator knows to be live
+	var gone []uint32            // ids removed (or whose add failed) and not re-added since
 	for i := 0; i < nops; i++ {
 		switch r.Pick(10, 4, 1, 6, 1) {
 		case 0: // add
@@ -93,8 +96,33 @@ func genFlat(r *core.Rand, tier string) *flatCase {
 				}
 			}
 			id := next
-			next += uint32(r.Range(1, 3))
-			ids = append(ids, id)
+			if len(gone) > 0 && r.Chance(0.12) {
+				// re-add an id that was removed earlier (with or without a flush since)
+				j := r.Intn(len(gone))
+				id = gone[j]
+				gone = append(gone[:j], gone[j+1:]...)
+			} else {
+				if denseIDs {
+					next++
+				} else {
+					next += uint32(r.Range(1, 3))
+				}
+				ids = append(ids, id)
+			}
+			ok := len(v) == dim
+			if ok && c.Metric == "cosine" {
+				ok = false
+				for _, x := range v {
+					if x != 0 {
+						ok = true
+					}
+				}
+			}
+			if ok {
+				liveSet[id] = true
+			} else if !liveSet[id] {
+				gone = append(gone, id) // a failed add leaves the id free
+			}
 			if len(v) == dim {
 				pool = append(pool, v)
 			}
@@ -105,6 +133,10 @@ func genFlat(r *core.Rand, tier string) *flatCase {
 				id = ids[r.Intn(len(ids))]
 			} else {
 				id = next + uint32(r.Intn(5))
+			}
+			if liveSet[id] {
+				delete(liveSet, id)
+				gone = append(gone, id)
 			}
 			c.Cmds = append(c.Cmds, flatCmd{Op: "remove", ID: id})
 		case 2:
@@ -154,7 +186,22 @@ func genFlatSearch(r *core.Rand, dim int, pool [][]float32, ids []uint32, next u
 	case 5:
 		cmd.Thr = math.Float32bits(1e30)
 	}
-	switch r.Pick(5, 3, 2, 1, 1) {
+	switch r.Pick(5, 3, 2, 1, 1, 3, 1) {
+	case 5: // contiguous id range [a,b] (may include ids that are absent or removed)
+		a := uint32(r.Range(1, int(next)))
+		b := a + uint32(r.Range(0, 14))
+		for id := a; id <= b; id++ {
+			cmd.Filter = append(cmd.Filter, id)
+		}
+	case 6: // two contiguous blocks
+		a := uint32(r.Range(1, int(next)))
+		for id := a; id < a+uint32(r.Range(1, 9)); id++ {
+			cmd.Filter = append(cmd.Filter, id)
+		}
+		b := a + uint32(r.Range(12, 20))
+		for id := b; id < b+uint32(r.Range(1, 9)); id++ {
+			cmd.Filter = append(cmd.Filter, id)
+		}
 	case 0:
 	case 1: // random subset
 		for _, id := range ids {
